@@ -2,7 +2,9 @@ package main
 
 import (
 	"bytes"
+	"errors"
 	"fmt"
+	"io"
 	"math"
 	"os"
 	"path/filepath"
@@ -24,7 +26,15 @@ type c02File struct {
 	Labels  [][2]string `json:"labels,omitempty"`
 	Content string      `json:"content"` // Go-quoted
 	Take    *int        `json:"take,omitempty"` // the caller stops after this many Scans, then Resets
+	IOErr   bool        `json:"io_error_after_content,omitempty"` // the io.Reader delivers Content and then fails (not io.EOF)
 }
+
+// c02FailReader fails every Read with an error that is not io.EOF.
+type c02FailReader struct{}
+
+var errC02Disk = errors.New("injected read failure")
+
+func (c02FailReader) Read([]byte) (int, error) { return 0, errC02Disk }
 type c02Input struct {
 	Kind        string    `json:"kind"` // reader | files
 	Files       []c02File `json:"files"`
@@ -250,7 +260,12 @@ func c02Reader(o *hx.Out, files []c02File, raw []string, tags ...string) (err er
 			lab = append(lab, kv[0], kv[1])
 			labx = append(labx, hx.L(hx.S(kv[0]), hx.S(kv[1])))
 		}
-		rd.Reset(strings.NewReader(raw[i]), f.Name, lab...)
+		var src io.Reader = strings.NewReader(raw[i])
+		if f.IOErr {
+			src = io.MultiReader(src, c02FailReader{})
+			o.Count("input-fails-with-io-error-then-Reset")
+		}
+		rd.Reset(src, f.Name, lab...)
 		start := len(ob.recs)
 		takex := hx.L()
 		if f.Take != nil {
@@ -280,6 +295,10 @@ func c02Reader(o *hx.Out, files []c02File, raw []string, tags ...string) (err er
 			o.Count("io-error")
 		}
 		recs := append([]hx.Sx(nil), ob.recs[start:]...)
+		if f.IOErr {
+			fsx = append(fsx, hx.L(hx.S(f.Name), hx.List(labx), hx.S(raw[i]), hx.List(recs), errx, takex, hx.I(1)))
+			continue
+		}
 		fsx = append(fsx, hx.L(hx.S(f.Name), hx.List(labx), hx.S(raw[i]), hx.List(recs), errx, takex))
 	}
 	c := hx.L(hx.I(1), c02Oracle(raw), hx.List(fsx), hx.Bool(ob.stable()))
@@ -729,7 +748,7 @@ func c02Labels(r *hx.Rng) [][2]string {
 }
 
 func genC02(o *hx.Out, r *hx.Rng, tier string, replay string) error {
-	o.Rule = "byte-level benchmark texts: lines weighted 40% benchmark / 25% key-value / 10% unit / 25% foreign, 12% of lines mutated (byte deleted / inserted / replaced, incl. invalid UTF-8 and U+00A0/U+2028), separators from ASCII and Unicode white space, LF / CRLF / CRCRLF endings, missing final newline; read (a) through one benchfmt.Reader reused by Reset over 1-3 inputs with arbitrary initial labels and (b) through benchfmt.Files over 1-4 real files with duplicate paths, label=path arguments and missing files; 30% of the key/value lines carry a mixed-script key of 1-4 runes drawn from rune classes (ASCII / non-ASCII lower case, ASCII / non-ASCII upper case, titlecase, caseless and Other_Lowercase/Other_Uppercase letters, digits, marks, ASCII and non-ASCII white space), and every such rune is also tried alone, first, last and in the middle of a key (directed); inputs of 50-600 results with distinct random names totalling more than 64 KiB (every result cloned at Scan time, all clones re-serialised at the end: Name, configuration values, values); hostile: 1500 distinct keys / units (intern-table eviction), set/delete/re-set key histories, lines of 64 KiB and more (foreign, benchmark, key/value; 65534-140000 bytes, LF and CR LF); the caller of the reused Reader may stop after k Scans (also between the records queued by one Unit line) and Reset. Every result is cloned at Scan time and re-serialised at the end. non-trivial = at least one result record; distinct by input bytes"
+	o.Rule = "byte-level benchmark texts: lines weighted 40% benchmark / 25% key-value / 10% unit / 25% foreign, 12% of lines mutated (byte deleted / inserted / replaced, incl. invalid UTF-8 and U+00A0/U+2028), separators from ASCII and Unicode white space, LF / CRLF / CRCRLF endings, missing final newline; read (a) through one benchfmt.Reader reused by Reset over 1-3 inputs with arbitrary initial labels and (b) through benchfmt.Files over 1-4 real files with duplicate paths, label=path arguments and missing files; 30% of the key/value lines carry a mixed-script key of 1-4 runes drawn from rune classes (ASCII / non-ASCII lower case, ASCII / non-ASCII upper case, titlecase, caseless and Other_Lowercase/Other_Uppercase letters, digits, marks, ASCII and non-ASCII white space), and every such rune is also tried alone, first, last and in the middle of a key (directed); inputs of 50-600 results with distinct random names totalling more than 64 KiB (every result cloned at Scan time, all clones re-serialised at the end: Name, configuration values, values); hostile: 1500 distinct keys / units (intern-table eviction), set/delete/re-set key histories, lines of 64 KiB and more (foreign, benchmark, key/value; 65534-140000 bytes, LF and CR LF); the caller of the reused Reader may stop after k Scans (also between the records queued by one Unit line) and Reset; io-error histories: 2-4 inputs through one reused Reader where an earlier input's io.Reader delivers a prefix (cut at a line end or inside a line) and then fails with an error other than io.EOF - Err must report it and the following inputs are read afresh. Every result is cloned at Scan time and re-serialised at the end. non-trivial = at least one result record; distinct by input bytes"
 	o.Add(hx.L(hx.I(0), hx.List(unicodeRanges(unicode.IsSpace)), hx.List(unicodeRanges(unicode.IsLower)), hx.List(unicodeRanges(unicode.IsUpper))),
 		map[string]string{"kind": "tables"}, "tables", false)
 
@@ -1038,5 +1057,44 @@ func genC02(o *hx.Out, r *hx.Rng, tier string, replay string) error {
 		}
 	}
 	_ = math.Pi
-	return c02DupLabelled(o, r.Split(), dir, tier) // c02dup.go: the same path twice plain and once labelled
+	if err := c02DupLabelled(o, r.Split(), dir, tier); err != nil { // c02dup.go: the same path twice plain and once labelled
+		return err
+	}
+	return c02IOErrors(o, r.Split(), tier)
+}
+
+// c02IOErrors: one Reader reused through Reset where an EARLIER input died with
+// a real I/O error of its io.Reader (after delivering a prefix that ends at a
+// line boundary or inside a line): Err reports it, and the next input is read
+// from its first line as if the Reader were new (own stream, last).
+func c02IOErrors(o *hx.Out, r *hx.Rng, tier string) error {
+	n := 40
+	if tier == "thorough" {
+		n = 600
+	}
+	for i := 0; i < n; i++ {
+		nf := r.Range(2, 4)
+		bad := r.Intn(nf - 1) // never the last: something must follow the failure
+		var files []c02File
+		var raw []string
+		for j := 0; j < nf; j++ {
+			t := c02Text(r, o, r.Range(1, 10))
+			f := c02File{Name: []string{"a", "b", "", "c"}[j]}
+			if r.Chance(0.3) {
+				f.Labels = c02Labels(r)
+			}
+			if j == bad || (j < nf-1 && r.Chance(0.2)) {
+				f.IOErr = true
+				if len(t) > 0 && r.Chance(0.6) {
+					t = t[:r.Intn(len(t)+1)] // the failure comes anywhere, also inside a line
+				}
+			}
+			f.Content = strconv.Quote(t)
+			files, raw = append(files, f), append(raw, t)
+		}
+		if err := c02Reader(o, files, raw, "ioerr"); err != nil {
+			return err
+		}
+	}
+	return nil
 }
